@@ -69,9 +69,11 @@ def vp_possible(*names, hide=(), helps=None):
             "pv_help": [b((helps or {}).get(n, "")) for n in names]}
 
 
-def group(id, args, required=False, multiple=False, requires=(), conflicts=()):
-    return {"id": id, "args": list(args), "required": required, "multiple": multiple,
-            "requires": list(requires), "conflicts": list(conflicts)}
+def group(id, args, required=False, multiple=False, requires=(), conflicts=(), via_arg=(), implicit=False):
+    """via_arg: members that join through Arg::group(s) instead of ArgGroup::args (listed in `args` as well: that is what
+    the built command holds); implicit: the group is never declared, it exists only because arguments name it"""
+    return {"id": id, "args": list(args) + [x for x in via_arg if x not in args], "required": required, "multiple": multiple,
+            "requires": list(requires), "conflicts": list(conflicts), "via_arg": list(via_arg), "implicit": implicit}
 
 
 def cmd(name, args=(), groups=(), subs=(), aliases=(), short_flag=None, long_flag=None, version=False,
@@ -498,6 +500,11 @@ def f_relx():
     add("list relations", cmd("p", [arg("a", "a", "aa", action="SetTrue", overrides=["a", "b", "c"]), arg("b", "b", action="SetTrue", conflicts=["c", "d"]),
                                     arg("c", "c", action="SetTrue"), arg("d", "d", action="SetTrue", req_unless=["a", "b"]),
                                     arg("e", "e", "ee", req_if_eq=[("a", "true"), ("b", "true")], requires_ifs=[("1", "c"), ("2", "d")])]), values=("1", "2"))
+    add("required group of two", cmd("p", [arg("a", "a", action="SetTrue"), arg("b", "b", action="SetTrue"), arg("c", "c", action="SetTrue")],
+                                     groups=[group("g", ["a", "b"], required=True, multiple=True)]), values=())
+    add("membership through Arg::group", cmd("p", [arg("a", "a", action="SetTrue"), arg("b", "b", action="SetTrue"), arg("c", "c", action="SetTrue", conflicts=["g"]),
+                                                   arg("d", "d", action="SetTrue"), arg("e", "e", action="SetTrue")],
+                                             groups=[group("g", ["a"], via_arg=["b"], requires=["d"]), group("h", [], via_arg=["d", "e"], implicit=True)]), values=())
     add("transitive requires", cmd("p", [arg("a", "a", action="SetTrue", requires=["b"]), arg("b", "b", action="SetTrue", requires=["c"]),
                                          arg("c", "c", action="SetTrue")]), values=())
     add("exclusive + required", cmd("p", [arg("e", "e", action="SetTrue", exclusive=True), arg("r", "r", required=True), arg("f", "f", action="SetTrue")]), values=("v",))
